@@ -49,9 +49,9 @@ Lemma reduced_euler_unfold x y z :
   reduced_euler ROps (x, y, z) = (0, v_polar ROps x y z, Rfmod (PI / 2 - v_azimuth ROps x y z) (2 * PI)).
 Proof. reflexivity. Qed.
 
-(* unit directions outside the snapping band of Vector3d.azimuth (0 < |x| <= 1e-8
-   or 0 < |y| <= 1e-8, the finding of C20) are recovered from their spherical
-   coordinates *)
+(* unit directions outside the rounding band of Vector3d.azimuth (0 < |x| <= 1e-8 |v|
+   or 0 < |y| <= 1e-8 |v|, with |v| = 1 here; see C20) are recovered from their
+   spherical coordinates *)
 Lemma polar_roundtrip_unit x y z :
   x * x + y * y + z * z = 1 -> C20ProjProofs.nosnap x -> C20ProjProofs.nosnap y ->
   from_polar ROps false (v_azimuth ROps x y z) (v_polar ROps x y z) 1 = (x, y, z).
@@ -60,9 +60,9 @@ Proof.
   assert (Hn : C20ProjProofs.nrm (x, y, z) = 1).
   { unfold C20ProjProofs.nrm, C20Proj.vnorm. rsimpl. rewrite Hu. apply sqrt_1. }
   pose proof (C20ProjProofs.cart_sph_cart_rad x y z) as H.
-  rewrite Hn in H. specialize (H Rlt_0_1 Hx Hy).
+  rewrite Hn in H.
+  specialize (H Rlt_0_1 (proj2 (C20ProjProofs.nosnapr_unit x) Hx) (proj2 (C20ProjProofs.nosnapr_unit y) Hy)).
   unfold C20Proj.vec2polar in H. rewrite C20ProjProofs.to_polar_unfold in H.
-  rewrite (C20ProjProofs.snap_id x Hx), (C20ProjProofs.snap_id y Hy) in H.
   rewrite C20ProjProofs.radial_unfold, Hn in H. exact H.
 Qed.
 
